@@ -98,7 +98,7 @@ func (g *c01gen) dml() string {
 		return fmt.Sprintf("(%d, %d)", id, n)
 	}
 	_ = tail
-	switch g.r.Intn(5) {
+	switch g.r.Intn(9) {
 	case 0:
 		return fmt.Sprintf("INSERT INTO %s %s VALUES %s;", t, cols, val(100+g.uniq, g.r.Intn(9), "new"))
 	case 1:
@@ -107,6 +107,22 @@ func (g *c01gen) dml() string {
 		return fmt.Sprintf("DELETE FROM %s WHERE id = %d;", t, 1+g.r.Intn(6))
 	case 3:
 		return fmt.Sprintf("REPLACE INTO %s %s USING (id) VALUES %s, %s;", t, cols, val(1+g.r.Intn(4), 77, "rep"), val(200+g.uniq, 5, "rep"))
+	case 4:
+		// affects no record: the table is touched but not changed
+		return fmt.Sprintf("UPDATE %s SET n = 0 WHERE id = 99999;", t)
+	case 5:
+		if three {
+			return fmt.Sprintf("INSERT INTO %s (id, n, s) SELECT id + %d, n, 'sel' FROM t1 WHERE id < 3;", t, 1000+10*g.uniq)
+		}
+		return fmt.Sprintf("INSERT INTO %s (id, n) SELECT id + %d, n FROM t1 WHERE id < 3;", t, 1000+10*g.uniq)
+	case 6:
+		if t == "t0" || t == "t1" {
+			o := map[string]string{"t0": "t1", "t1": "t0"}[t]
+			return fmt.Sprintf("UPDATE %s SET %s.n = %s.n + 100 FROM %s JOIN %s ON %s.id = %s.id;", t, t, o, t, o, t, o)
+		}
+		return fmt.Sprintf("DELETE FROM %s WHERE id = 99999;", t)
+	case 7:
+		return fmt.Sprintf("REPLACE INTO %s %s USING (id) VALUES %s;", t, cols, val(1, 1, "same"))
 	default:
 		return fmt.Sprintf("UPDATE %s SET n = n * 2;", t)
 	}
@@ -193,6 +209,15 @@ func genC01(seed uint64) (*Scenario, *c01Meta) {
 		g.lines = append(g.lines, r.PickS("EXIT;", "EXIT 3;"))
 	default:
 		g.dump("final", 0)
+		// the implicit commit must not depend on what the last statement is
+		switch r.Intn(4) {
+		case 0:
+			g.lines = append(g.lines, "SELECT COUNT(*) FROM t0;")
+		case 1:
+			g.lines = append(g.lines, "IF TRUE THEN SELECT COUNT(*) FROM t1; END IF;")
+		case 2:
+			g.lines = append(g.lines, "VAR @last := 1;")
+		}
 	}
 	m.Lines, m.Dumps = g.lines, g.dumps
 	if m.Ending == "normal" || m.Ending == "cancel" {
